@@ -19,7 +19,14 @@
 (*    "correct"       count += 1 after the element, forget on success      *)
 (*    "count_before"  count += 1 before the element is decoded             *)
 (*    "no_forget"     the guard is not disarmed on success                 *)
-(*    "no_guard"      nothing drops the prefix on failure (leak)           *)
+(*    "no_guard"      nothing drops the prefix on failure (leak; also what *)
+(*                    a guard that "skips zero-sized elements" amounts to  *)
+(*                    for elements that are tokens with a destructor)      *)
+(*    "set_len_first" the container's length is set to the whole chunk     *)
+(*                    before its elements exist, so unwinding drops slots  *)
+(*                    that were never initialised                          *)
+(*    "assume_init_on_error"  after a failed in-place decode the block is  *)
+(*                    treated as an initialised value and dropped whole    *)
 (***************************************************************************)
 EXTENDS Naturals, FiniteSets, Sequences
 
@@ -75,7 +82,7 @@ Construct ==
 Fault ==
   /\ status = "run" /\ i = f /\ f < n /\ kind # "hooklimit"
   /\ status' = "unwind"
-  /\ count' = IF Guard = "count_before" THEN count + 1 ELSE count
+  /\ count' = IF Guard = "count_before" THEN count + 1 ELSE IF Guard = "set_len_first" THEN n ELSE count
   \* an owning box frees its block while unwinding; a raw pointer is freed by hand on the error path only
   /\ block' = IF block = "owned" THEN "freed" ELSE IF block = "raw" /\ kind # "panic" THEN "freed" ELSE IF block = "raw" THEN "leaked" ELSE block
   /\ UNCHANGED <<n, f, kind, i, live, drops>>
@@ -93,7 +100,10 @@ UnwindDone ==
   /\ status = "unwind"
   /\ Guard = "no_guard" \/ \A j \in 0..(count - 1) : drops[j] > 0
   /\ status' = IF kind = "panic" THEN "panic" ELSE "err"
-  /\ UNCHANGED <<n, f, kind, i, count, live, drops, block>>
+  /\ IF Guard = "assume_init_on_error" /\ kind # "panic"
+     THEN drops' = [j \in 0..MaxN |-> IF j < n THEN drops[j] + 1 ELSE drops[j]] /\ live' = {}
+     ELSE UNCHANGED <<drops, live>>
+  /\ UNCHANGED <<n, f, kind, i, count, block>>
 
 \* all elements decoded: disarm the guard and hand the value over
 Finish ==
